@@ -381,6 +381,16 @@ Inductive LY : option N -> stmt -> cstate -> cstate -> list Z -> list N -> Prop 
     LYC brk true (CCons c b elifs) els st ste (N.of_nat (List.length (ccode st)) + N.of_nat (List.length seg)) js bs seg ->
     cconsts st' = cconsts ste -> csym st' = csym ste ->
     LY brk (SIf c b elifs els) st st' bs seg
+(* l[i] = e: the value, the container, the index, OpSetIndex.  (The semantics lx_s
+   has no element stores — Vm.v does not perform them —, so the simulation is
+   vacuous here; the constructor exists for the static properties of the layout:
+   CompileInitProofs.v.) *)
+| ly_store brk l i e st st1 st2 st3 st' seg_e seg_l seg_i :
+    efrag e = true -> compile_expr true e st = COk st1 -> ccode st1 = ccode st ++ seg_e ->
+    efrag l = true -> compile_expr true l st1 = COk st2 -> ccode st2 = ccode st1 ++ seg_l ->
+    efrag i = true -> compile_expr true i st2 = COk st3 -> ccode st3 = ccode st2 ++ seg_i ->
+    cconsts st' = cconsts st3 -> csym st' = csym st ->
+    LY brk (SAssign (EIndex l i) e) st st' [] (seg_e ++ seg_l ++ seg_i ++ [N_of_opc SetIndex])
 with LYL : option N -> slist -> cstate -> cstate -> list Z -> list N -> Prop :=
 | lyl_nil brk st : LYL brk SNil st st [] []
 | lyl_cons brk s t st st1 st2 bs1 bs2 seg1 seg2 :
@@ -692,7 +702,7 @@ Qed.
 (* ---------- the simple statements ---------- *)
 Lemma sim_decl f T n e st st' bs seg : LY (Some T) (SDecl n e) st st' bs seg -> SIMs (S f) T (SDecl n e) st st' seg.
 Proof.
-  intro HL. inversion HL as [? ? ? ? st1 ? seg_e sg HF HC HS HJ HKc HSy| | | | | | | ]; subst.
+  intro HL. inversion HL as [? ? ? ? st1 ? seg_e sg HF HC HS HJ HKc HSy| | | | | | | | ]; subst.
   intros G L env env' br base HX p vs pre post HP HLen HK HI HM HInv HG HB HD.
   cbn [lx_s] in HX. destruct (eval_expr (fun x => slook x env) e) as [v|] eqn:HE; [|discriminate]. inversion HX; subst env' br.
   cbn [sdepth] in HD.
@@ -716,7 +726,7 @@ Qed.
 
 Lemma sim_assign f T n e st st' bs seg : LY (Some T) (SAssign (EVar n) e) st st' bs seg -> SIMs (S f) T (SAssign (EVar n) e) st st' seg.
 Proof.
-  intro HL. inversion HL as [|? ? ? ? st1 ? y seg_e sg HF HC HS HRy HJ HKc HSy| | | | | | ]; subst.
+  intro HL. inversion HL as [|? ? ? ? st1 ? y seg_e sg HF HC HS HRy HJ HKc HSy| | | | | | | ]; subst.
   intros G L env env' br base HX p vs pre post HP HLen HK HI HM HInv HG HB HD.
   cbn [lx_s] in HX. destruct (eval_expr (fun x => slook x env) e) as [v|] eqn:HE; [|discriminate].
   destruct (sassign n v env) as [env1|] eqn:HA; [|discriminate]. inversion HX; subst env' br.
@@ -747,7 +757,7 @@ Qed.
 
 Lemma sim_break f T st st' bs seg : LY (Some T) SBreak st st' bs seg -> SIMs (S f) T SBreak st st' seg.
 Proof.
-  intro HL. inversion HL as [| | |? ? ? jb HBs HKc HSy| | | | ]; subst.
+  intro HL. inversion HL as [| | |? ? ? jb HBs HKc HSy| | | | | ]; subst.
   intros G L env env' br base HX p vs pre post HP HLen HK HI HM HInv HG HB HD.
   cbn [lx_s] in HX. inversion HX; subst env' br. cbn [bshape] in HBs.
   pose proof (step_jump p vs pre post seg T HBs HP HI) as R.
@@ -788,7 +798,7 @@ Lemma sim_while f c b : ALLs f -> ALLl f ->
   forall T st st' bs seg, LY (Some T) (SWhile c b) st st' bs seg -> SIMs (S f) T (SWhile c b) st st' seg.
 Proof.
   intros IHs IHl T st st' bs seg HL.
-  inversion HL as [| | | |? ? ? ? st1 stx stb ? bs_b seg_c seg_b jf jb HF HC HS HKx HSx HLx HLb HJf HJb HKc HSy| | | ]; subst.
+  inversion HL as [| | | |? ? ? ? st1 stx stb ? bs_b seg_c seg_b jf jb HF HC HS HKx HSx HLx HLb HJf HJb HKc HSy| | | | ]; subst.
   intros G L env env' br base HX p vs pre post HP HLen HK HI HM HInv HG HB HD.
   cbn [lx_s] in HX. cbn [sdepth] in HD.
   destruct (proj1 (proj2 ly_frame) _ _ _ _ _ _ HLb) as [(nb & Kb) Sb].
@@ -952,7 +962,7 @@ Lemma sim_if f c b elifs els : ALLc f ->
   forall T st st' bs seg, LY (Some T) (SIf c b elifs els) st st' bs seg -> SIMs (S f) T (SIf c b elifs els) st st' seg.
 Proof.
   intros IHc T st st' bs seg HL.
-  inversion HL as [| | | | | | |? ? ? ? ? ? ste ? js ? ? HCh HKc HSy]; subst.
+  inversion HL as [| | | | | | |? ? ? ? ? ? ste ? js ? ? HCh HKc HSy| ]; subst.
   intros G L env env' br base HX p vs pre post HP HLen HK HI HM HInv HG HB HD.
   cbn [lx_s] in HX. cbn [sdepth] in HD.
   destruct (IHc _ _ _ _ _ _ _ _ _ HCh G L env env' br base HX p vs pre post HP HLen) as (vs' & R & I & HM'); auto.
@@ -1241,7 +1251,7 @@ Lemma sim_forstep f lv start stop step b : ALLr f ->
   forall T st st' bs seg, LY (Some T) (SForStep lv start stop step b) st st' bs seg -> SIMs (S f) T (SForStep lv start stop step b) st st' seg.
 Proof.
   intros IHr T st st' bs seg HL.
-  inversion HL as [| | | | |? ? ? ? ? ? ? s1 s2 s3 sa ? seg1 seg2 seg3 segp seg_r lvi HF1 HC1 HS1 HF2 HC2 HS2 HF3 HC3 HS3 HPRO HR| | ]; subst.
+  inversion HL as [| | | | |? ? ? ? ? ? ? s1 s2 s3 sa ? seg1 seg2 seg3 segp seg_r lvi HF1 HC1 HS1 HF2 HC2 HS2 HF3 HC3 HS3 HPRO HR| | | ]; subst.
   intros G L env env' br base HX p vs pre post HP HLen HK HI HM HInv HG HB HD.
   cbn [lx_s] in HX. cbn [sdepth] in HD.
   set (estep := match step with OSome e => e | ONoneE => ENum 1 end) in *.
@@ -1301,7 +1311,7 @@ Lemma sim_foriter f lv t e b : ALLi f ->
   forall T st st' bs seg, LY (Some T) (SForIter lv t e b) st st' bs seg -> SIMs (S f) T (SForIter lv t e b) st st' seg.
 Proof.
   intros IHi T st st' bs seg HL.
-  inversion HL as [| | | | | |? ? ? ? ? ? s1 s2 sa ? seg1 segk segp seg_r lvi Ht HF1 HC1 HS1 HCk HSk HPRO HR| ]; subst.
+  inversion HL as [| | | | | |? ? ? ? ? ? s1 s2 sa ? seg1 segk segp seg_r lvi Ht HF1 HC1 HS1 HCk HSk HPRO HR| | ]; subst.
   intros G L env env' br base HX p vs pre post HP HLen HK HI HM HInv HG HB HD.
   cbn [lx_s] in HX. cbn [sdepth] in HD.
   assert (HX' : match eval_expr (fun x => slook x env) e with Some iter => lx_i f lv 0%float iter b (lv_decl lv env) | None => None end = Some (env', br))
@@ -1360,7 +1370,8 @@ Proof.
     + intros T s st st' bs seg HL. destruct s;
         try (inversion HL; fail).
       * apply (sim_decl f T n e st st' bs seg HL).
-      * inversion HL; subst. eapply sim_assign; eassumption.
+      * inversion HL; subst; [eapply sim_assign; eassumption|].
+        repeat intro. match goal with HX : lx_s _ _ _ = Some _ |- _ => cbn in HX; discriminate HX end.
       * apply (sim_if f c b elifs els IHc T st st' bs seg HL).
       * apply (sim_while f c b IHs IHl T st st' bs seg HL).
       * apply (sim_forstep f lv start stop step b IHr T st st' bs seg HL).
@@ -1399,6 +1410,7 @@ Proof.
   - rewrite patch_all_nil in HP. inversion HP; subst x'. eexists. repeat split; eauto. eapply ly_foriter; eauto.
   - destruct (H eq_refl x x' pre post HC HLen HP) as (seg' & C' & K' & S' & B' & L' & LY).
     exists seg'. repeat split; auto. eapply ly_if; eauto. rewrite L'. exact LY.
+  - rewrite patch_all_nil in HP. inversion HP; subst x'. eexists. repeat split; eauto. eapply ly_store; eauto.
   - rewrite patch_all_nil in HP. inversion HP; subst x'. exists []. repeat split; auto. constructor.
   - rewrite patch_all_app in HP. destruct (patch_all true bs1 T x) as [x1|] eqn:E1; [|discriminate]. cbn [bind] in HP.
     destruct (H eq_refl x x1 pre (seg2 ++ post)) as (seg1' & C1 & K1 & S1 & B1 & L1 & LY1); auto.
@@ -1972,4 +1984,71 @@ Proof.
     + intros n y v HR HV. pose proof HR as HR'. rewrite resolve_sres in HR'.
       pose proof (rels_lookup _ _ _ _ A4 n y v HR' HV) as SH. unfold slot_holds in SH.
       destruct (sym_top_globals _ HO HI' n y HR) as [SG _]. rewrite SG in SH. exact SH.
+Qed.
+
+(* ====================================================================== *)
+(* Part F: the layout for the fragment WITH element stores (static uses)    *)
+(* ====================================================================== *)
+Lemma ly_store_ok l i e st st' : efrag l = true -> efrag i = true -> efrag e = true ->
+  compile_stmt true (SAssign (EIndex l i) e) st = COk st' -> LYOK (SAssign (EIndex l i) e) st st'.
+Proof.
+  intros HFl HFi HFe HC. cbn [compile_stmt] in HC.
+  destruct (compile_expr true e st) as [st1|] eqn:E1; [|discriminate]. cbn [bind] in HC.
+  apply bind_ok in HC. destruct HC as (st3 & HC3 & HC). apply bind_ok in HC3. destruct HC3 as (st2 & E2 & E3).
+  destruct (efrag_sl2 e HFe st st1 E1) as (S1 & ops1 & newc1 & C1 & K1 & _).
+  destruct (efrag_sl2 l HFl st1 st2 E2) as (S2 & ops2 & newc2 & C2 & K2 & _).
+  destruct (efrag_sl2 i HFi st2 st3 E3) as (S3 & ops3 & newc3 & C3 & K3 & _).
+  pose proof (efrag_breaks e HFe _ _ E1) as B1. pose proof (efrag_breaks l HFl _ _ E2) as B2. pose proof (efrag_breaks i HFi _ _ E3) as B3.
+  pose proof (emit_enc0 SetIndex _ _ eq_refl HC) as ->. cbn [csym ccode cconsts cbreaks].
+  change (enc1 (SetIndex, 0)) with [N_of_opc SetIndex].
+  exists [], (encode ops1 ++ encode ops2 ++ encode ops3 ++ [N_of_opc SetIndex]). split; [|split].
+  - eapply ly_store; eauto; cbn [cconsts csym]; congruence.
+  - rewrite C3, C2, C1, <- !app_assoc. reflexivity.
+  - rewrite B3, B2, B1, app_nil_r. reflexivity.
+Qed.
+
+Theorem ly_all_w :
+  (forall s, cfrag_stmt s = true -> forall st st', compile_stmt true s st = COk st' -> LYOK s st st') /\
+  (forall l, cfrag_slist l = true -> slist_ly l) /\
+  (forall l, cfrag_clist l = true -> clist_lyok l) /\
+  (forall o, match o with NoElse => True | Else b => cfrag_slist b = true -> slist_ly b end).
+Proof.
+  apply stmt_mutind; try (intros; exact I).
+  - intros n e HF st st' HC. apply (ly_decl_ok n e st st' HF HC).
+  - intros target e HF st st' HC. destruct target; try discriminate HF.
+    + apply (ly_assign_ok n e st st' HF HC).
+    + cbn [cfrag_stmt] in HF. apply andb_true_iff in HF. destruct HF as [HF F3]. apply andb_true_iff in HF. destruct HF as [F1 F2].
+      apply (ly_store_ok target1 target2 e st st' F1 F2 F3 HC).
+  - intros c b Hb elifs Hc els Ho HF st st' HC. cbn [cfrag_stmt] in HF.
+    apply andb_true_iff in HF. destruct HF as [HF F4]. apply andb_true_iff in HF. destruct HF as [HF F3].
+    apply andb_true_iff in HF. destruct HF as [F1 F2].
+    apply (ly_if_ok c b elifs els st st' F1 (Hb F2) (Hc F3)); auto. destruct els; [exact I|apply Ho; exact F4].
+  - intros c b Hb HF st st' HC. cbn [cfrag_stmt] in HF. apply andb_true_iff in HF. destruct HF as [F1 F2].
+    apply (ly_while_ok c b st st' F1 (Hb F2) HC).
+  - intros lv start stop step b Hb HF st st' HC. cbn [cfrag_stmt] in HF.
+    apply andb_true_iff in HF. destruct HF as [HF F4]. apply andb_true_iff in HF. destruct HF as [HF F3].
+    apply andb_true_iff in HF. destruct HF as [F1 F2].
+    apply (ly_forstep_ok lv start stop step b st st' F1 F2 F3 (Hb F4) HC).
+  - intros lv t e b Hb HF st st' HC. cbn [cfrag_stmt] in HF.
+    assert (Ht : t = TStr \/ t = TArr \/ t = TMap) by (destruct t; try discriminate HF; auto).
+    assert (HF' : efrag e && cfrag_slist b = true) by (destruct t; try discriminate HF; exact HF).
+    apply andb_true_iff in HF'. destruct HF' as [F1 F2].
+    apply (ly_foriter_ok lv t e b st st' Ht F1 (Hb F2) HC).
+  - intros _ st st' HC. apply (ly_break_ok st st' HC).
+  - intros _ st st' HC. cbn [compile_stmt] in HC. inversion HC; subst.
+    exists [], []. split; [constructor|]. split; rewrite app_nil_r; reflexivity.
+  - intros b _ HF. discriminate.
+  - intros w HF. discriminate.
+  - intros _ st st' HC. cbn [body_of] in HC. inversion HC; subst.
+    exists [], []. split; [constructor|]. split; rewrite app_nil_r; reflexivity.
+  - intros s Hs t Ht HF st st' HC. cbn [cfrag_slist] in HF. apply andb_true_iff in HF. destruct HF as [F1 F2].
+    cbn [body_of] in HC. destruct (compile_stmt true s st) as [st1|] eqn:E1; [|discriminate]. cbn [bind] in HC.
+    destruct (Hs F1 st st1 E1) as (bs1 & seg1 & L1 & C1 & B1). rewrite compile_slist_body in HC.
+    destruct (Ht F2 st1 st' HC) as (bs2 & seg2 & L2 & C2 & B2).
+    exists (bs1 ++ bs2), (seg1 ++ seg2). split; [|split; [rewrite C2, C1, app_assoc; reflexivity|rewrite B2, B1, app_assoc; reflexivity]].
+    eapply lyl_cons; eauto. rewrite C1, app_length, Nat2N.inj_add. reflexivity.
+  - intros c b Hb t Ht HF. cbn [cfrag_clist] in HF.
+    apply andb_true_iff in HF. destruct HF as [HF F3]. apply andb_true_iff in HF. destruct HF as [F1 F2].
+    cbn [clist_lyok]. auto.
+  - intros b Hb. exact Hb.
 Qed.
